@@ -37,6 +37,10 @@ CHECKS = {
                 text="For ALL real inputs within the stated non-degeneracy assumptions: rotation_matrix_from_axis is a proper rotation about its axis by its angle (orthogonality, det, axis fixed, trace); rotation_matrix_from_vectors (generic branch) is proper and maps v1n to v2n; the antiparallel branch takes one loop pass and returns the product of two recursive results that chain v1 -> aux -> v2; translate / transform / Substructure edits / ensemble translate, rotate, center_at_atom, center_at_core keep all pairwise distances and the signed volume and move exactly the selected atoms; rotate_dihedral leaves the dihedral at the target, the fixed side unchanged and the moved side rigid. Every query answered unsat; negative controls sat.",
                 note="Reals, not floats: rounding and the 1e-12 neighbourhood of antiparallel vectors are outside. Antiparallel lemma (e) and Kabsch alignment (scipy/rmsd) are NOT claimed. sqrt/reciprocal/sin/cos are exact fresh-variable encodings; recursive calls and the RNG are contract stubs.",
                 design="3/C11"),
+    "C12": dict(engine="XH+SR", technique="SR: the real Structure.join / rotation_matrix_from_vectors / _optimize_rotation executed on z3 Real coordinates, per-component QF_NRA queries with numeric replay; XH: CrossHair symbolic execution of join and of molli combine's _ml_assemble with symbolic charges, overrides and configuration selectors",
+                text="Geometry (SR): for ALL real coordinates of two fragments (2-4 atoms + attachment point each) and every requested length > 0, z3 shows the new bond has that length and points along A's attachment vector, both fragments keep all pairwise distances and their signed volume, with optimize_rotation the pose is the plain pose with B turned about the new bond (assume/guarantee chain), exactly (anti)parallel attachment vectors along 4 rational directions with symbolic lengths go through the REAL rotation code, the product does not change when the RNG returns different numbers, and _optimize_rotation returns the scanned pose of minimal loss. Constitution (XH): charges in [-3,3], multiplicities in [1,4], Optional overrides incl. 0 symbolic; atom and bond multisets, new bond, parents/indices, partial charges, untouched sources over 4 fragment kinds x attachment host x options; combine: every ordered selection of attachment points.",
+                note="Reals, not floats. rotation_matrix_from_vectors is replaced by its C11 contract in the generic-pose geometry goals and _optimize_rotation by 'rotation about the given axis' (the real functions are analysed separately); the compiled kernel is replaced by its contract. The XH constitution part is selector-bound.",
+                design="3/C12"),
     "C14": dict(engine="XH+SHP", technique="CrossHair symbolic execution of the real ConformerEnsemble/Conformer code on a shape-level numpy model with symbolic extents (n_conformers up to 1000), plus real-numpy content scenarios; z3 decides each path",
                 text="One inductive step from an arbitrary rectangular state: for every constructor branch, each of 17 operations, all n_conformers in [0,1000] (symbolic, linear integer arithmetic over array extents), n_atoms 0..3 and every conformer index, the three parallel arrays keep matching extents and every conformer view reads coordinates and charges. On real numpy (extents <= 3): writes through a conformer change row i only, iteration (nested, interleaved, suspended) visits each conformer once in order, grown ensembles dump and serialise.",
                 note="The shape model (engine/shapenp.py) is validated against numpy on ~10k concrete shape cases per run; array *content* is only checked at concrete small extents; a symbolic conformer index bypasses __getitem__'s match statement (CrossHair artefact) and constructs the Conformer directly.",
